@@ -145,7 +145,7 @@ func vfC42AbsLen(rt *rapid.T, pool int) int {
 	if pool == 1 {
 		maxK = 13
 	}
-	r := rapid.IntRange(0, 63).Draw(rt, "lenkind")
+	r := rapid.IntRange(0, 64).Draw(rt, "lenkind") % 64
 	switch {
 	case r < 24:
 		k := rapid.IntRange(0, 8).Draw(rt, "ksmall")
@@ -170,17 +170,11 @@ func vfC42AbsLen(rt *rapid.T, pool int) int {
 
 func vfC42DrawOp(rt *rapid.T, concurrent bool) vfC42Op {
 	var op vfC42Op
-	r := rapid.IntRange(0, 199).Draw(rt, "kind")
-	switch {
-	case r < 60:
-		op.Kind = 0
-	case r < 116:
-		op.Kind = 1
-	case r < 160:
-		op.Kind = 2
-	case r < 199:
-		op.Kind = 4 // put immediately followed by a get relative to the capacity just put
-	default:
+	// rapid's integer generators are biased towards small values and the upper bound, so the kind is taken from a
+	// table indexed by r mod 16 (every residue is reachable from small r) instead of from contiguous ranges.
+	r := rapid.IntRange(0, 255).Draw(rt, "kind")
+	op.Kind = [16]int{4, 1, 0, 2, 0, 1, 2, 4, 0, 1, 2, 4, 0, 1, 2, 1}[r%16]
+	if r == 137 {
 		op.Kind = 3 // runtime.GC (sequential) / Gosched (concurrent): rare, a GC cycle costs as much as many cases
 	}
 	op.Pool = rapid.IntRange(0, 1).Draw(rt, "pool")
@@ -541,7 +535,7 @@ func (a *vfC42Actor) mutBS(op vfC42Op) {
 		nc := vfC42PickCap(op.A, vfC42BSCaps, vfC42BSCapsBig)
 		nb := make([][]byte, nc)
 		fillTo := op.B % (nc + 1)
-		if op.B&(1<<19) != 0 {
+		if op.B&1 != 0 {
 			fillTo = nc // dirty tail beyond len
 		}
 		for j := 0; j < fillTo; j++ {
